@@ -1,6 +1,6 @@
 """C14 — password authentication (DESIGN.md §4 C14)."""
 
-PKGS = ["./internal/auth/pass_table/"]
+PKGS = ["./internal/auth/pass_table/", "./internal/endpoint/smtp/"]
 
 
 def harness(c, n, replay_ops=None):
